@@ -24,6 +24,7 @@ PROPS = {
         "uncovered": [],
     },
     "C13": {
+        "generators": [gen.gen_c13_names],
         "level": "proof",
         "trusted_base": [A_KANI, A_BINRW],
         "assumptions": [],
